@@ -676,7 +676,22 @@ fn interesting_ref(r: &mut Rng) -> isize {
 /// coordinates: (family name, bits)
 fn gen_coord(r: &mut Rng, fam: u64) -> u64 {
     match fam {
-        0 => (r.range(-8, 8) as f64).to_bits(),                      // lattice
+        0 => match r.below(8) {
+            // lattice, with -0.0 and large whole numbers (exact integers up to 2^53 and beyond)
+            0 => (-0.0f64).to_bits(),
+            1 => ((r.range(-(1 << 53), 1 << 53)) as f64).to_bits(),
+            2 => *r.pick(&[
+                9007199254740991.0f64.to_bits(),  // 2^53 - 1
+                (-9007199254740991.0f64).to_bits(),
+                9007199254740992.0f64.to_bits(),  // 2^53
+                9007199254740994.0f64.to_bits(),
+                1e15f64.to_bits(),
+                1e16f64.to_bits(),
+                (-1e21f64).to_bits(),
+                1e300f64.to_bits(),
+            ]),
+            _ => (r.range(-8, 8) as f64).to_bits(),
+        },
         1 => ((r.range(-100000, 100000) as f64) / 1024.0).to_bits(), // dyadic
         2 => ((r.range(-100000, 100000) as f64) / 1000.0).to_bits(), // decimal fractions
         3 => loop {
@@ -846,10 +861,21 @@ fn case_medit_ascii(r: &mut Rng, big: bool) -> (String, String, String, bool, &'
     let mut pt = Vec::new();
     for b in &md.coords {
         if seen.insert(*b) {
+            // Rust std alone, independent of mesh-io: the Display text of the coordinate and what
+            // FromStr makes of that text (the hypothesis float_ok is evaluated on this triple)
+            let text = format!("{}", f64::from_bits(*b));
+            let back = match text.parse::<f64>() {
+                Ok(y) => {
+                    let y = y.to_bits();
+                    format!("(Some {})", if y >> 32 == 0 { y.to_string() } else { format!("0x{:x}", y) })
+                }
+                Err(_) => "None".to_string(),
+            };
             pt.push(format!(
-                "({}, {})",
+                "({}, {}, {})",
                 if b >> 32 == 0 { b.to_string() } else { format!("0x{:x}", b) },
-                coq_bytes(format!("{}", f64::from_bits(*b)).as_bytes())
+                coq_bytes(text.as_bytes()),
+                back
             ));
         }
     }
